@@ -128,6 +128,14 @@ def dynamic_cases(tier: str) -> List[Dict[str, Any]]:
     for c in bad:
         out.append({"kind": "invalid", "country": c.get("country", "us"), "opts": list(c.get("extra", [])) + list(c["opts"]), "shape": c["why"], "ini": c["ini"], "sheets": c["sheets"],
                     "input_name": c.get("input_name"), "config_name": c.get("config_name"), "env": {"LOG_LEVEL": "DEBUG"} if len(out) % 5 == 0 else None})
+    # deprecated JSON configurations (rejected with a hint): also with every optional key, lists included
+    shape = shapes["single"]
+    for extra in ({}, {"generators": ["rp2_full_report", "open_positions"]}, {"generators": [], "accounting_methods": {"2020": "fifo"}}):
+        import json as _json
+
+        cfg = dict({"in_header": {"timestamp": 0, "asset": 1}, "out_header": {"timestamp": 0}, "intra_header": {"timestamp": 0}, "assets": ["B1"], "exchanges": ["X1"], "holders": ["H1"]},
+                   **extra)
+        out.append({"kind": "invalid", "country": "us", "opts": [], "shape": f"config: deprecated JSON format {sorted(extra)}", "ini": _json.dumps(cfg), "sheets": CS.matrices(shape)})
     for i, c in enumerate(out):
         c["id"] = i
     return out
@@ -160,6 +168,15 @@ def judge(st: Stats, case: Dict[str, Any]) -> None:
         env.update(case.get("env") or {})
         tag = f"{' '.join(f'{k}={v}' for k, v in (case.get('env') or {}).items())} rp2_{case['country']} {' '.join(case['opts'])} on {case['kind']} input '{case['shape']}'".strip()
         payload = {"kind": "dynamic", "case": {k: case[k] for k in ("kind", "country", "opts", "shape", "ini", "sheets", "input_name", "config_name", "env") if k in case}}
+        # files of the user's in the output directory (an archived copy named after a report, an encrypted copy, notes): RP2 may only
+        # touch the reports it writes itself
+        os.makedirs(ws.out, exist_ok=True)
+        foreign = {}
+        if case["kind"] == "valid":
+            for name in ("fifo_tax_report_us.ods.2021-04-15", "fifo_rp2_full_report.ods.gpg", "hifo_open_positions.ods.bak", "notes.txt", "fifo_rp2_full_report.ods.tmp"):
+                with open(os.path.join(ws.out, name), "w", encoding="utf-8") as fh:
+                    fh.write("user file " + name)
+                foreign["out/" + name] = hashlib.sha256(("user file " + name).encode()).hexdigest()
         before = snapshot(ws.root)
         for run_no in (1, 2):
             st.inc("evaluations")
@@ -186,6 +203,10 @@ def judge(st: Stats, case: Dict[str, Any]) -> None:
                         st.violation(dict(payload, signature=f"C18 write outside output / log directories / {ev}", what=f"{tag} run {run_no} (exit {res.exit}): {ev} on {p}"))
             after = snapshot(ws.root)
             changed = sorted(k for k in set(before) | set(after) if before.get(k) != after.get(k))
+            for k, digest in foreign.items():
+                if after.get(k) != digest:
+                    st.violation(dict(payload, signature="C18 a file of the user's in the output directory was deleted or modified",
+                                      what=f"{tag} run {run_no} (exit {res.exit}): {k} is {'gone' if k not in after else 'modified'}"))
             for k in changed:
                 top = k.split("/")[0]
                 ok = top == "out" or k in ("out/",) or k.startswith("cwd/log/") or k == "cwd/log/"
